@@ -54,6 +54,8 @@ def norm(e, clone_transparent=False):
             r = inner[2][0]
             if r[0] == 'call' and r[1].endswith(('Option::ok_or_else', 'Option::ok_or')) and r[2]:
                 return norm(('fld', ('down', r[2][0], 'Some'), '0'), clone_transparent)
+            if r[0] == 'call' and r[1].endswith(('Option::as_ref', 'Option::as_mut', 'Option::as_deref')) and len(r[2]) == 1:
+                return norm(('fld', ('down', r[2][0], 'Some'), '0'), clone_transparent)       # `let x = self.opt.as_ref()?;`
             if r[0] == 'call' and r[1].endswith('Result::map_err') and r[2]:
                 return norm(('fld', ('down', r[2][0], 'Ok'), '0'), clone_transparent)
             if r[0] == 'agg' and isinstance(r[1], tuple) and r[1][0] == 'adt' and r[1][2] in ('Ok', 'Some') and len(r[2]) == 1:
